@@ -171,6 +171,29 @@ def py_step(line):
     A, p = C.parse_mat(ts, p)
     n = len(A)
     half = Fraction(1, 2)
+    if op == "loograd":     # mirror of MLL.looGrad?
+        r, p = C.parse_mat(ts, p)
+        cnt = int(ts[p])
+        p += 1
+        X = frac_inv(A)
+        rv = [row[0] for row in r]
+        out = []
+        for _ in range(cnt):
+            D, p = C.parse_mat(ts, p)
+            dm, p = C.parse_mat(ts, p)
+            if X is None:
+                continue
+            XD = [[sum(X[i][k] * D[k][j] for k in range(n)) for j in range(n)] for i in range(n)]
+            W = [[sum(XD[i][k] * X[k][j] for k in range(n)) for j in range(n)] for i in range(n)]
+            b_ = [sum(X[i][j] * rv[j] for j in range(n)) for i in range(n)]
+            wr = [sum(W[i][j] * rv[j] for j in range(n)) for i in range(n)]
+            xd = [sum(X[i][j] * dm[j][0] for j in range(n)) for i in range(n)]
+            g = Fraction(0)
+            for i in range(n):
+                a, a1, b1 = X[i][i], -W[i][i], -wr[i] - xd[i]
+                g += half * a1 / a - b_[i] * b1 / a + half * b_[i] ** 2 * a1 / a ** 2
+            out.append(rs(g))
+        return "singular" if X is None else " ".join(out)
     if op == "grad":     # mirror of MLL.gradParts? / gradAssemble
         r, p = C.parse_mat(ts, p)
         cnt = int(ts[p])
@@ -868,7 +891,7 @@ def twin_check(case, w, A, m, tag):
                   f"is evaluated with stale kernel / mean values")
 
 
-def exact_gradient_lines(case, w, mll, tag, cond, known_sites):
+def exact_gradient_lines(case, w, mll, tag, cond, known_sites, op="grad"):
     """d(objective)/dθ_k for scalar components θ_k of the raw parameters: the implementation's autograd value vs the exact
     value of the proved formula Σ_b [½ rᵀA⁻¹D_kA⁻¹r − ½ tr(A⁻¹D_k) + dμ_kᵀA⁻¹r]/N + d(prior + added terms)/dθ_k, where
     A, r are exact rationals and D_k = ∂A/∂θ_k, dμ_k = ∂m/∂θ_k are the Jacobians of the model's own prior (torch
@@ -908,12 +931,13 @@ def exact_gradient_lines(case, w, mll, tag, cond, known_sites):
         JA = [jac(Ae[bi].reshape(-1)).reshape(n, n, P) for bi in idxs]
         Jm = [jac(me[bi].reshape(-1)).reshape(n, P) for bi in idxs]
         v_impl = mll(w.model(*w.model.train_inputs), w.train_y, **getattr(w, "kw", {})).sum()
-        g_impl = torch.autograd.grad(v_impl, ps, allow_unused=True)
+        g_impl = torch.autograd.grad(v_impl, ps, allow_unused=True, retain_graph=True)   # (SGPR's added-loss term shares this graph)
         G = torch.cat([(torch.zeros(sz, dtype=torch.float64) if gi is None else gi.reshape(-1).double())
                        for gi, sz in zip(g_impl, sizes)])
         Bt = tuple(Bx)
         added = [t.loss() for t in Mz.registered_added_loss_terms(w.model)]
-        oth = (reduce_terms(prior_terms(w), Bt) + reduce_terms(added, Bt)).sum() / w.N
+        Ndiv = w.N if op == "grad" else n       # the LOO objective divides by the number of points
+        oth = (reduce_terms(prior_terms(w), Bt) + reduce_terms(added, Bt)).sum() / Ndiv
 
         def flatgrad(v):
             if not getattr(v, "requires_grad", False):
@@ -939,12 +963,14 @@ def exact_gradient_lines(case, w, mll, tag, cond, known_sites):
         names.append(f"{params[t][0]}[{k - offs[t]}]")
     lines = []
     for bi, JA_b, Jm_b in zip(idxs, JA, Jm):
-        body = f"grad 0 {C.mat_tokens(Ae[bi].detach())} {C.vec_tokens((ye[bi] - me[bi]).detach())} {len(comps)}"
+        body = f"{op} 0 {C.mat_tokens(Ae[bi].detach())} {C.vec_tokens((ye[bi] - me[bi]).detach())} {len(comps)}"
         for k in comps:
             body += f" {C.mat_tokens(JA_b[:, :, k])} {C.vec_tokens(Jm_b[:, k])}"
         lines.append(body)
     case.lines2 = lines
-    N = w.N
+    N = Ndiv
+    JAn = [float(j.abs().max()) for j in JA]
+    Jmn = [float(j.abs().max()) for j in Jm]
 
     def finish2(rep2):
         if any(r in ("singular", "bad-request") for r in rep2):
@@ -955,9 +981,14 @@ def exact_gradient_lines(case, w, mll, tag, cond, known_sites):
         for r in rep2:
             toks = r.split()
             for j in range(len(comps)):
-                q, tr, mt, g = (Fraction(x) for x in toks[4 * j:4 * j + 4])
-                tot[j] += g
-                mag[j] += abs(float(q)) / 2 + abs(float(tr)) / 2 + abs(float(mt))
+                if op == "grad":
+                    q, tr, mt, g = (Fraction(x) for x in toks[4 * j:4 * j + 4])
+                    tot[j] += g
+                    mag[j] += abs(float(q)) / 2 + abs(float(tr)) / 2 + abs(float(mt))
+                else:
+                    g = Fraction(toks[j])
+                    tot[j] += g
+                    mag[j] += abs(float(g)) + n * cond * (max(JAn) + max(Jmn))   # crude scale of the summed terms
         worst = 0.0
         for j, k in enumerate(comps):
             exact = float(tot[j]) / N + float(Goth[k])
@@ -973,9 +1004,9 @@ def exact_gradient_lines(case, w, mll, tag, cond, known_sites):
                           f"d mll / d {names[j]} = {got!r}; exact value of the proved gradient formula {exact!r}; the difference is "
                           f"the gradient of the known prior batch-sum shift on `{site}`")
                 continue
-            case.fail(f"mll-grad-exact:{names[j].split('[')[0]}",
-                      f"d(Σ_b mll_b)/d {names[j]}: autograd of the implementation {got!r}; exact value of "
-                      f"Σ_b[½rᵀA⁻¹DA⁻¹r − ½tr(A⁻¹D) + dμᵀA⁻¹r]/N + d(priors+added)/dθ = {exact!r} "
+            case.fail(f"{'mll' if op == 'grad' else 'loo'}-grad-exact:{names[j].split('[')[0]}",
+                      f"d(Σ_b objective_b)/d {names[j]}: autograd of the implementation {got!r}; exact value of "
+                      f"{'Σ_b[½rᵀA⁻¹DA⁻¹r − ½tr(A⁻¹D) + dμᵀA⁻¹r]/N' if op == 'grad' else 'Σ_b Σ_i[½a′/a − b b′/a + ½b²a′/a²]/n'} + d(priors+added)/dθ = {exact!r} "
                       f"(|diff| {abs(got - exact):.3e}, tolerance {tol:.3e}; {tag}, batch {list(Bx)}, n={n})")
         case.notes["exact_grad_components"] = len(comps)
         case.notes["exact_grad_worst_ratio"] = worst
@@ -1012,6 +1043,11 @@ def run_loo(cfg):
             return case
         check_registrations(case, w)
         check_added_registrations(case, w)
+        if not case.fails and not fsites:
+            try:
+                exact_gradient_lines(case, w, loo, tag, cond, [], op="loograd")
+            except Exception as e:
+                case.notes["exact_grad_skipped"] = f"{type(e).__name__}: {str(e)[:120]}"
         case.lines, Bx = mll_lines(w, A, m, y, pri, add, op="loo")
         Bx = tuple(Bx)
         ye = y.expand(*Bx, y.shape[-1])
